@@ -273,19 +273,19 @@ let handle () =
        Model/FutTransform.transform_program (atoms are numbered in the order of sorted(future_predicates)) *)
     let sg () = match next () with "p" -> FPos | "n" -> FNeg | "m" -> FNegNeg | s -> failwith ("sgn " ^ s) in
     let batom () = match next () with
-      | "at" -> let a = nat () in let l = nat () in let t = nat () in FAt (a, l, t) | "in" -> FInit (nat ()) | "kI" -> FKwI | "kF" -> FKwF | s -> failwith ("batom " ^ s) in
+      | "at" -> let a = nat () in let l = nat () in let t = nat () in FAt (a, l, t) | "in" -> FInit (nat ()) | "kI" -> FKwI | "kF" -> FKwF | "tl" -> FTel | s -> failwith ("batom " ^ s) in
     let hd () = match next () with
-      | "n" -> let a = nat () in let t = nat () in FNorm (a, t) | "d" -> FDisj (list nat) | "c" -> FChoice (list nat) | "x" -> FCons | s -> failwith ("head " ^ s) in
+      | "n" -> let a = nat () in let t = nat () in FNorm (a, t) | "d" -> FDisj (list nat) | "c" -> FChoice (list nat) | "x" -> FCons | "t" -> FTelHead | s -> failwith ("head " ^ s) in
     let pt () = match next () with "I" -> FInitial | "A" -> FAlways | "D" -> FDynamic | "F" -> FFinal | s -> failwith ("part " ^ s) in
     let rules = list (fun () -> let p = pt () in let h = hd () in let b = list (fun () -> let s = sg () in let a = batom () in (s, a)) in { fp = p; fh = h; fb = b }) in
     let rec leb a b = match a, b with O, _ -> true | S _, O -> false | S x, S y -> leb x y in
     let i n = string_of_int (int_of_nat n) in
     let tm = function QRel z -> Printf.sprintf "t%+d" (int_of_z z) | QZero -> "0" in
-    let pa = function QU (a, t) -> "U" ^ i a ^ "@" ^ tm t | QFut (a, n, t) -> "X" ^ i a ^ "." ^ i n ^ "@" ^ tm t | QI -> "I" | QF -> "F" | QFU -> "FU" in
+    let pa = function QU (a, t) -> "U" ^ i a ^ "@" ^ tm t | QFut (a, n, t) -> "X" ^ i a ^ "." ^ i n ^ "@" ^ tm t | QI -> "I" | QF -> "F" | QFU -> "FU" | QTel -> "T" in
     let sgs = function FPos -> "p" | FNeg -> "n" | FNegNeg -> "m" in
     let ids l = String.concat "," (List.map i l) in
     let rt = function ORInitial -> "initial" | ORAlways -> "always" | ORDynamic -> "dynamic" in
-    let rule r = (match r.qh with QHAtom p -> "n " ^ pa p | QHDisj l -> "d " ^ ids l | QHChoice l -> "c " ^ ids l | QHCons -> "x") ^ " | " ^
+    let rule r = (match r.qh with QHAtom p -> "n " ^ pa p | QHDisj l -> "d " ^ ids l | QHChoice l -> "c " ^ ids l | QHCons -> "x" | QHAux k -> "n A" ^ i k) ^ " | " ^
                  String.concat " " (List.map (fun (s, a) -> sgs s ^ pa a) r.qb) in
     (match transform_program leb rules with
      | None -> "rejected"
@@ -293,7 +293,7 @@ let handle () =
        String.concat " ;; " (List.map (fun (r, p) -> rt r ^ " | " ^ rule p) o.o_main) ^ " ## " ^
        String.concat " " (List.map (fun (a, n) -> i a ^ ":" ^ i n) o.o_bridge) ^ " ## " ^
        String.concat " ;; " (List.map (fun ((r, l), rs) -> rt r ^ " " ^ i l ^ " : " ^ String.concat " // " (List.map (fun (t, p) -> rule t ^ " => " ^ rule p) rs)) o.o_cons) ^ " ## " ^
-       String.concat " ;; " (List.map (fun ((r, k), rng) -> rt r ^ " " ^ (match k with KMain -> "main" | KTmp l -> "tmp" ^ i l | KPerm l -> "perm" ^ i l) ^ " " ^ ids rng) o.o_parts))
+       String.concat " ;; " (List.map (fun ((r, k), rng) -> rt r ^ " " ^ (match k with KMain -> "main" | KTmp l -> "tmp" ^ i l | KPerm l -> "perm" ^ i l) ^ " " ^ ids rng) o.o_parts) ^ " ## " ^ i o.o_naux)
   | "ivs" ->
     (* ivs <n> { <left> <right> } : Model/IntervalSet.of_list *)
     let xs = list (fun () -> let a = int () in let b = int () in (z_of_int a, z_of_int b)) in
